@@ -175,13 +175,15 @@ def classify_lost(world, ctxd, tracker, cid, cd_name, before, manual_cids, memo=
     return res
 
 
-def mon_refuse(world, tracker, ctxd, model, obs, before, after, force):
-    """Statement, first sentence: a held manual commit => plain reset refuses, deleting nothing."""
+def mon_refuse(world, tracker, ctxd, model, obs, before, after, force, faulted=False):
+    """Statement, first sentence: a held manual commit => plain reset refuses, deleting nothing.
+    faulted: a git command of the evaluation was made to fail - the job may end in any error, but not in
+    ResetComplete, and it must have deleted nothing."""
     out = []
     if model['demand'] != 'MustRefuse':
         return out
-    ok = (obs['status'] == 'LossyResetWarning' and not obs['deleted'] and not obs['changed'] and not obs['declined']
-          and obs['pushes'] == 0)
+    refused = obs['status'] == 'LossyResetWarning' or (faulted and obs['status'] != 'ResetComplete')
+    ok = (refused and not obs['deleted'] and not obs['changed'] and not obs['declined'] and obs['pushes'] == 0)
     if ok:
         return out
     inv_n = {v: k for k, v in ctxd['names'].items()}
